@@ -29,6 +29,13 @@ chk("C02", "runtime monitor (postcondition) on Solver.solve; exact fact table fr
     "protocol stand-in whose model choice is hostile (stubborn/scatter/first/last/random), and through native-deduction replies.",
     "ref_brute on programs with domain product <= 8192; stand-in implements the reply formats of CspuzSugarInterface.java", "DESIGN.md §3 C02")
 
+chk("C03", "runtime monitor at the client boundary of the text-protocol backends (M-WIRE) + M-SOLVE end to end; far end = protocol stand-in",
+    "Every protocol exchange of the five backend classes is checked at run time: text well-formed, declarations equal the Solver's variables, "
+    "each constraint line denotes the posted constraint (all assignments of its variables), key line exact, reply reflected into sol with the right types; "
+    "driven through Solver and directly with sparse ids, in-process, through fake extension modules and through the real subprocess path.",
+    "stand-in for absent Sugar/csugar/cspuz_core (reply formats from CspuzSugarInterface.java); semantics of the two native operators assumed from their names",
+    "DESIGN.md §3 C03")
+
 MANIFEST = dict(
     version=1,
     setup_cmd="./setup.sh",
